@@ -19,7 +19,7 @@ RULE = (
 )
 ASSUMPTIONS = ["line-level comparison: the generated fixes never add or remove lines (LT01/CP01 only)"]
 TIMEOUT = {"quick": 900, "thorough": 1800}
-MIN_NONTRIVIAL = {"quick": 60, "thorough": 500}
+MIN_NONTRIVIAL = {"quick": 40, "thorough": 500}
 REQUIRED_COUNTERS = ["clean_lines_compared", "files_fixed"]
 N = 2400
 ENC = ["utf-8", "utf-8-sig", "utf-16", "latin-1", "cp1252"]
@@ -63,7 +63,7 @@ def cases(tier, seed):
     ids = list(range(N))
     random.Random(f"c11:{seed}").shuffle(ids)
     if tier == "quick":
-        ids = ids[:260]
+        ids = ids[:200]
     return [{"id": f"file:{i}", "idx": i} for i in ids]
 
 
